@@ -151,8 +151,112 @@ def to_index(t):
     if t.w == 64:
         return t.bv
     if t.w > 64:
-        return z3.Extract(63, 0, t.bv)
+        # extraction of the low bits commutes with + - *: let the rewriter push it to the (<= 64-bit) leaves
+        return z3.simplify(z3.Extract(63, 0, t.bv))
     return ext(t, 64)
+
+
+def _contains(e, k):
+    if e.eq(k):
+        return True
+    todo = [e]
+    seen = set()
+    while todo:
+        x = todo.pop()
+        if x.get_id() in seen:
+            continue
+        seen.add(x.get_id())
+        if x.eq(k):
+            return True
+        if z3.is_app(x):
+            todo.extend(x.children())
+        elif z3.is_quantifier(x):
+            todo.append(x.body())
+    return False
+
+
+def bare_reads(k, e):
+    """triggers: the array reads whose index is exactly the bound variable (one single-term pattern per array)"""
+    pats = []
+    todo = [e]
+    seen = set()
+    while todo:
+        x = todo.pop()
+        if x.get_id() in seen:
+            continue
+        seen.add(x.get_id())
+        if z3.is_quantifier(x):
+            todo.append(x.body())
+            continue
+        if not z3.is_app(x):
+            continue
+        if z3.is_select(x) and x.arg(1).eq(k) and z3.is_const(x.arg(0)) and not any(p.eq(x) for p in pats):
+            pats.append(x)
+        todo.extend(x.children())
+    return pats
+
+
+def reindex(k, e):
+    """forall k. phi(a[base + k])  ==  forall k. phi'(a[k])  by the bijection k -> k - base (mod 2**64): array reads at
+    `pointer offset + k` become reads at the bare bound variable, which is what E-matching can instantiate."""
+    idxs = []
+    todo = [e]
+    seen = set()
+    while todo:
+        x = todo.pop()
+        if x.get_id() in seen:
+            continue
+        seen.add(x.get_id())
+        if z3.is_quantifier(x):
+            todo.append(x.body())
+            continue
+        if not z3.is_app(x):
+            continue
+        if z3.is_select(x):
+            idx = x.arg(1)
+            if _contains(idx, k):
+                idxs.append(idx)
+        todo.extend(x.children())
+    if not idxs:
+        return e
+    bases = []
+    for idx in idxs:
+        if idx.eq(k):
+            return e            # already has a bare read
+        b = z3.simplify(idx - k)
+        if not _contains(b, k):
+            bases.append(b)
+    if not bases:
+        return e
+    # most frequent base
+    best = max(bases, key=lambda b: sum(1 for c in bases if c.eq(b)))
+    if z3.is_bv_value(best) and best.as_long() == 0:
+        return e
+    e2 = z3.substitute(e, (k, k - best))
+    # tidy only the index terms (a global simplify would bit-blast the widened comparisons)
+    pairs = []
+    todo = [e2]
+    seen = set()
+    while todo:
+        x = todo.pop()
+        if x.get_id() in seen:
+            continue
+        seen.add(x.get_id())
+        if z3.is_quantifier(x):
+            todo.append(x.body())
+            continue
+        if not z3.is_app(x):
+            continue
+        if z3.is_select(x):
+            idx = x.arg(1)
+            if _contains(idx, k):
+                si = z3.simplify(idx)
+                if not si.eq(idx):
+                    pairs.append((idx, si))
+        todo.extend(x.children())
+    if pairs:
+        e2 = z3.substitute(e2, *pairs)
+    return e2
 
 
 # ----------------------------------------------------------------------------------------------- contract objects
@@ -167,7 +271,7 @@ class LoopSpec:
 class FnContract:
     def __init__(self, name, regions=None, nullable=(), logical=None, requires=None, ensures=None, modifies=(), loops=None,
                  inline=False, configs=None, alloc_result=None, escapes=(), defs=None, shape=None, frees=(), ghost_updates=None,
-                 abstract=False, pure=False, result_name=None, note=None, allocates=False, replay=True):
+                 abstract=False, pure=False, result_name=None, note=None, allocates=False, replay=True, lemmas=None):
         self.name = name
         self.regions = dict(regions or {})      # pointer parameter -> 'u8[expr]' | 'u32[16]' | 'struct' | 'cell' | shape object
         self.nullable = set(nullable)
@@ -186,6 +290,7 @@ class FnContract:
         self.note = note
         self.allocates = allocates
         self.replay = replay
+        self.lemmas = dict(lemmas or {})    # ghost assertions at every return: proved (locals visible), then assumed for `ensures`
 
 
 class Registry:
@@ -485,8 +590,10 @@ class Translator:
                     return z3.And(*inst) if inst else z3.BoolVal(True)
                 return z3.Or(*inst) if inst else z3.BoolVal(False)
         if forall:
-            return z3.ForAll([k], z3.Implies(rng, body))
-        return z3.Exists([k], z3.And(rng, body))
+            b2 = reindex(k, z3.Implies(rng, body))
+            return z3.ForAll([k], b2, patterns=bare_reads(k, b2))
+        b2 = reindex(k, z3.And(rng, body))
+        return z3.Exists([k], b2, patterns=bare_reads(k, b2))
 
     def ev_Call(self, n):
         if not isinstance(n.func, ast.Name):
